@@ -94,8 +94,10 @@ package standard
 //@ func (*Service).unblindProposal$1
 //@   thread
 //@   requires proposal != nil && provider != nil && !closed(ch)
-//@   assumes call UnblindProposal (r, err): err == nil ==> r != nil && r.Data != nil
+//@   assumes call UnblindProposal (r, err): (err == nil ==> r != nil && r.Data != nil) && (err != nil ==> r == nil)
 //@   chaninv ch (m): m != nil
+//@   loop 1
+//@     invariant signedProposalResponse != nil ==> signedProposalResponse.Data != nil
 //@   // the relay is sent precisely the signed blinded block
 //@   at call UnblindProposal: assert arg1 != nil && arg1.Proposal != nil && arg1.Proposal.Version == proposal.Version && arg1.Proposal.Bellatrix == proposal.BellatrixBlinded && arg1.Proposal.Capella == proposal.CapellaBlinded && arg1.Proposal.Deneb == proposal.DenebBlinded
 //@
